@@ -193,9 +193,9 @@ theorem truncate_effect (h : H) (s : Store) (inv : RwInv h s) (n : Nat) (hc : h.
     r.2.2.ret = 0 ∧ r.2.2.err = 0 ∧ r.1.frames = (n : Int) ∧ r.1.rpos = (n : Int) ∧ r.1.wpos = (n : Int) ∧
     absOf r.1 r.2.1 = (absOf h s).truncate (zeroFrame h.bw) n := by
   intro r
-  obtain ⟨o, i', a'⟩ := rdwr_step h s (.truncate n) inv hc
-  simp only [ROp.outOk] at o
-  simp only [ROp.toAOp, AbsFile.stepOpt, AbsFile.step] at a'
+  obtain ⟨o, i', a'⟩ := rdwr_step h s (.truncate n) inv trivial
+  simp only [ROp.outOk, hc, if_true] at o
+  simp only [ROp.toAOp, hc, if_true, AbsFile.stepOpt, AbsFile.step] at a'
   have hf' := i'.nframes
   have hr' := i'.abs_rpos
   have hw' := i'.abs_wpos
@@ -203,6 +203,27 @@ theorem truncate_effect (h : H) (s : Store) (inv : RwInv h s) (n : Nat) (hc : h.
   rw [AbsFile.truncate_length] at hf'
   exact ⟨o.1, o.2, hf'.symm, hr'.symm, hw'.symm, a'⟩
 
+/-- SFC_FILE_TRUNCATE on a route without `ftruncate` (SF_VIRTUAL_IO), since the TRUNC-VIO repair: refused — SF_TRUE (1),
+    no error, the handle unchanged up to the cleared error field, the store and hence the abstract file untouched -/
+theorem truncate_refused_effect (h : H) (s : Store) (n : Nat) (hm : h.mode = .rw) (hc : h.canTruncate = false) :
+    let r := stepAny h s ((ROp.truncate n).toOp h)
+    r.2.2.ret = 1 ∧ r.2.2.err = 0 ∧ r.1 = { h with error := 0 } ∧ r.2.1 = s ∧ absOf r.1 r.2.1 = absOf h s := by
+  intro r
+  have e : r = ({ h with error := 0 }, s, { ret := 1 }) :=
+    stepTruncate_vio h s n (by rw [hm]; decide) hc
+  rw [e]
+  exact ⟨rfl, rfl, rfl, rfl, rfl⟩
+
+/-- on routes where `ftruncate` works the TRUNC-VIO repair changed nothing -/
+theorem stepTruncate_eq_old (h : H) (s : Store) (f : Int) (hc : h.canTruncate = true) :
+    stepTruncate h s f = stepTruncateOld h s f := by
+  unfold stepTruncate stepTruncateOld
+  simp only []
+  have hs := (SameCfg.stepSeek { h with error := 0 } s f 0).canTruncate
+  generalize stepSeek { h with error := 0 } s f 0 = r at hs ⊢
+  obtain ⟨h1, s1, o1⟩ := r
+  have h1c : h1.canTruncate = true := hs.trans hc
+  simp [hc, h1c]
 /-! ## close, then a fresh read-only open -/
 
 theorem reopen_effect (h : H) (s : Store) (inv : RwInv h s) {fmt : Nat} {ch sr : Int} (cfg : CfgOf fmt ch sr h)
@@ -299,11 +320,8 @@ theorem reopen_read_all (h : H) (s : Store) (inv : RwInv h s) {fmt : Nat} {ch sr
 
 /-! ## close, then open SFM_RDWR again -/
 
-/-- the data section ends on an even offset, so `wav_close` appends no pad byte (always true for RAW / AU) -/
-def NoPad (h : H) : Prop := h.container = .wav → (h.dataoffset + h.frames * (h.bw : Int)) % 2 = 0
-
 theorem reopen_rw_effect (h : H) (s : Store) (inv : RwInv h s) {fmt : Nat} {ch sr : Int} (cfg : CfgOf fmt ch sr h)
-    (hsr : sr ≤ 0x7FFFFFFF) (hguard : h.container = .wav → h.frames * (h.bw : Int) < 0xFFFFFFFF) (hnp : NoPad h)
+    (hsr : sr ≤ 0x7FFFFFFF) (hguard : h.container = .wav → h.frames * (h.bw : Int) < 0xFFFFFFFF)
     (ix pos : Nat) :
     ∃ h' s', openHandle ix ⟨(closeHandle h s).bytes, pos⟩ .rw fmt ch sr = .ok h' s' ∧ RwInv h' s' ∧
       absOf h' s' = { frames := (absOf h s).frames, rpos := 0, wpos := (absOf h s).frames.length } ∧
@@ -333,11 +351,7 @@ theorem reopen_rw_effect (h : H) (s : Store) (inv : RwInv h s) {fmt : Nat} {ch s
       have := hguard hc
       rw [v.frames] at this
       omega
-    have hev : (hdrLenOf h + D.length) % 2 = 0 := by
-      have := hnp hc
-      rw [v.doff, v.frames, ← e] at this
-      omega
-    obtain ⟨h', s', ho, r⟩ := v.reopen_rw_wav cfg hc hsr hg hev ix pos fmt ch sr (by rw [cfg.cont, hc]; simp)
+    obtain ⟨h', s', ho, r⟩ := v.reopen_rw_wav cfg hc hsr hg ix pos fmt ch sr (by rw [cfg.cont, hc]; simp)
     exact ⟨h', s', ho, hfin h' s' r⟩
 
 /-! ## the `| SFM_RDWR` whence values -/
@@ -357,11 +371,11 @@ theorem seek_sfm_rdwr (h : H) (s : Store) (hm : h.mode = .rw) (off : Int) :
 /-- A file written by a write-only session of the library (open SFM_WRITE on a new file, any valid write calls and
     header updates, close — the sessions of C04 / C07), opened SFM_RDWR: the open succeeds, the handle satisfies the
     read/write invariant, and it stands for exactly the frames written, read position 0, write position at the end.
-    Excluded: WAV float/double (such a file carries a PEAK chunk) and WAV data ending on an odd offset (pad byte). -/
+    WAV float/double files (they carry a PEAK chunk) and WAVs whose odd-length data is followed by the pad byte are
+    covered; the only side condition is the 4 GiB RIFF limit. -/
 theorem written_file_opens_rdwr (ix fmt : Nat) (ch sr : Int) (h0 : H) (s0 : Store) (ops : List SOp)
     (ho : openHandle ix {} .w fmt ch sr = .ok h0 s0) (hsr : sr ≤ 0x7FFFFFFF) (hv : ∀ op ∈ ops, op.valid ch.toNat)
-    (hex : ∀ c, openCfg fmt ch sr = some c → c.hasPeak = false ∧
-      (c.container = .wav → (sessData c ops).length < 0xFFFFFFFF ∧ (c.hdrLen + (sessData c ops).length) % 2 = 0))
+    (hex : ∀ c, openCfg fmt ch sr = some c → c.container = .wav → (sessData c ops).length < 0xFFFFFFFF)
     (ix' pos : Nat) :
     ∃ c h' s', openCfg fmt ch sr = some c ∧
       openHandle ix' ⟨(closeHandle (runS (h0, s0) ops).1 (runS (h0, s0) ops).2).bytes, pos⟩ .rw fmt ch sr = .ok h' s' ∧
@@ -369,7 +383,7 @@ theorem written_file_opens_rdwr (ix fmt : Nat) (ch sr : Int) (h0 : H) (s0 : Stor
       absOf h' s' = { frames := groups c.bw (sessData c ops), rpos := 0, wpos := sessFrames ch.toNat ops } := by
   obtain ⟨c, hcfg, h1, h2, h3, i⟩ := session_inv ops ho hv
   obtain ⟨f1, f2, f3, f4, f5, f6⟩ := openCfg_facts hcfg
-  obtain ⟨hnp, hwav⟩ := hex c hcfg
+  have hwav := hex c hcfg
   have hdata : (c.init.run c ops).data = sessData c ops := by rw [run_data]; simp [Cfg.init]
   have hframes : (c.init.run c ops).frames = sessFrames ch.toNat ops := by rw [run_frames, f4]; simp [Cfg.init]
   have hdl := i.dlen
@@ -399,26 +413,22 @@ theorem written_file_opens_rdwr (ix fmt : Nat) (ch sr : Int) (h0 : H) (s0 : Stor
       (by rw [f1]; simp)
     exact ⟨c, h', s', hcfg, ho', hfin h' s' r⟩
   | wav =>
-    obtain ⟨hg, hev⟩ := hwav hcc
-    have hpk : (c.init.run c ops).peak = none := by
-      have := i.pkSome
-      rw [hnp] at this
-      cases hp : (c.init.run c ops).peak with
-      | none => rfl
-      | some ps => rw [hp] at this; simp at this
-    have hpad : wavPad_ct c (c.init.run c ops) = [] := by
-      unfold wavPad_ct; rw [hdata, if_neg (by omega)]
+    have hg := hwav hcc
+    obtain ⟨t2, ht2, hpad⟩ : ∃ t2, t2 ≤ 1 ∧ wavPad_ct c (c.init.run c ops) = zeros t2 := by
+      unfold wavPad_ct
+      split
+      · exact ⟨1, Nat.le_refl _, rfl⟩
+      · exact ⟨0, by omega, rfl⟩
     have himg : closedImage c (c.init.run c ops) =
-        wavHdr_ct c.big (codecOf c.fmtWord) c.enc.nbytes c.ch c.sr (sessFrames ch.toNat ops : Nat) none true
-          ((c.hdrLen + (sessData c ops).length : Nat) : Int) (sessData c ops).length ++ sessData c ops := by
-      simp [closedImage, hcc, hdrBytes, hdata, hpad, hpk, hframes]
+        wavHdr_ct c.big (codecOf c.fmtWord) c.enc.nbytes c.ch c.sr (sessFrames ch.toNat ops : Nat)
+          (c.init.run c ops).peak true
+          ((c.hdrLen + (sessData c ops).length + t2 : Nat) : Int) (sessData c ops).length ++ sessData c ops ++ zeros t2 := by
+      simp [closedImage, hcc, hdrBytes, hdata, hpad, hframes, zeros_length]
     rw [himg]
     rw [hcc] at f1 f6
-    have hL : c.hdrLen = wavHdrLen_ct (codecOf c.fmtWord) c.ch false := by
-      simp [Cfg.hdrLen, hcc, hnp]
     obtain ⟨h', s', ho', r⟩ := wav_image_open_rw c.big (codecOf c.fmtWord) c.sr c.ch c.enc (by rw [f2]; exact f6)
       (by rw [f4]; omega) (by rw [f3]; omega) (sessData c ops) (sessFrames ch.toNat ops) hdl hg _
-      (by rw [← hL]; exact hev) ix' pos fmt ch sr (by rw [f1]; simp)
+      (c.init.run c ops).peak i.pkLen t2 ht2 ix' pos fmt ch sr (by rw [f1]; simp)
     exact ⟨c, h', s', hcfg, ho', hfin h' s' r⟩
 
 /-! ## the values view -/
@@ -479,7 +489,7 @@ theorem read_values_core (h : H) (s : Store) (inv : RwInv h s) (ty : Ty) (fc : B
     let got := ((absValues h s ty).drop (absOf h s).rpos).take k
     r.2.2.ret = callCount h fc got.length ∧ r.2.2.err = 0 ∧
     r.2.2.data = got.flatten ++ List.replicate ((k - got.length) * h.ch)
-      (if (absOf h s).rpos < (absOf h s).frames.length then pattern ty else 0) := by
+      (if (absOf h s).rpos < (absOf h s).frames.length then readFill h s ty k got.length else 0) := by
   intro r got
   have g := inv.gives
   obtain ⟨o, _, _⟩ := rdwr_step h s (.read ty fc k) inv trivial
